@@ -900,6 +900,12 @@ async fn input_processing(
             .enumerate()
         {
             if let Some(mask_other) = mask_other {
+                // A party may only announce masked values for its own input instructions.
+                match circ.insts.get(w).map(|inst| inst.op) {
+                    Some(Op::Input(Input { party, .. })) if party as usize == p => {}
+                    Some(Op::Input(_)) => return Err(MpcError::ConflictingInputMask(w).into()),
+                    _ => return Err(MpcError::InstWithoutInput(w).into()),
+                }
                 if masked_input.is_some() {
                     return Err(MpcError::ConflictingInputMask(w).into());
                 }
